@@ -38,6 +38,13 @@ the driver, or the broker's own one with `via_inmemory`):
   * {"kind": "cli", "argv": [...]}: the real worker command line (harness/cli_glue.py: WorkerArgs.from_cli +
     start_listen) computes the keyword arguments of the Receiver;
   * {"kind": "api", "kwargs": {...}}: the real taskiq.api.run_receiver_task does (its own parameter names);
+  * {"kind": "api", "kwargs": {...}, "run": {"drops": [[k, name], ...]}}: the real run_receiver_task COROUTINE runs
+    on the virtual-time loop for the whole case (receiver_cls = a Receiver subclass whose callback() only tags the
+    execution and calls the real one).  The broker's listen() is scripted (cli_glue.FlakyFeed): it serves the
+    deliveries when their runner hands them in, and its j-th call raises (a dropped connection) when it is asked for
+    its (k+1)-th message - so the deliveries of the case are executed by the first / second / third Receiver that
+    run_receiver_task builds, earlier ones possibly still running under the receiver that was replaced.  The worker
+    task is cancelled when every delivery is through;
   * {"kind": "inmemory", "life": [...], "send": "kick" | "kicker", ...}: an InMemoryBroker built with the case's
     switches (propagate_exceptions, cast_types, max_async_tasks, await_inplace, sync_tasks_pool_size) is taken through
     the life-cycle calls of `life` (startup / shutdown, e.g. startup, shutdown, startup = a broker reused after a
@@ -695,8 +702,14 @@ def _run_case(case):
         broker.dependency_overrides = {ns["node_%d" % a]: ns["node_%d" % b] for a, b in case["overrides"]}
     ack = case.get("ack", "when_saved")
     tasks_decl = [broker.find_task(tname(case, t)) for t in range(len(case["tasks"]))]
+    live = None
     if kind == "inmemory":
         receiver = None                     # whatever receiver the broker holds when a delivery is kicked
+    elif kind == "api" and path.get("run") is not None:
+        import cli_glue
+        receiver = None                     # whatever receiver run_receiver_task has built when a delivery is served
+        live = cli_glue.FlakyFeed(path["run"].get("drops"))
+        broker.listen = live.listen
     elif kind in ("cli", "api"):
         # the keyword arguments of the Receiver as the real command line / the real run_receiver_task compute them
         # (on a throw-away broker, before the virtual-time loop exists)
@@ -800,11 +813,36 @@ def _run_case(case):
             R.sending.discard(i)
         R.ev("cb_done", i, err)
 
+    built, executed_by, finished = [], {}, {}
+
+    class LiveReceiver(Receiver):
+        """the receiver class handed to run_receiver_task: construction and everything else is Receiver's own; callback()
+        finds out which delivery it was given, tags the execution and calls the real callback()"""
+
+        def __init__(self, *a, **kw):
+            built.append(sorted(k for k in kw if k not in ("broker", "executor")))
+            self.verif_no = len(built) - 1
+            super().__init__(*a, **kw)
+
+        async def callback(self, message, raise_err=False):
+            i = live.take(message)
+            EXEC.set(i)
+            executed_by[i] = self.verif_no
+            R.ev("cb_start", i)
+            try:
+                await super().callback(message=message, raise_err=raise_err)
+                R.ev("cb_done", i, None)
+            except BaseException as ex:  # noqa: B902 - an escaping exception is an observation
+                R.ev("cb_done", i, type(ex).__name__ + ": " + str(ex)[:200])
+            finally:
+                if not finished[i].done():
+                    finished[i].set_result(None)
+
     async def runner(i, m):
         EXEC.set(i)
         if m.get("start"):
             await asyncio.sleep(m["start"] / 1_000_000)
-        if receiver is None:
+        if receiver is None and live is None:
             return await send(i, m)
         akind = m.get("ackable", "sync")
         if akind == "none":
@@ -816,6 +854,10 @@ def _run_case(case):
                 R.ev("ack", i)
                 await asyncio.sleep(0)
             message = AckableMessage(data=datas[i], ack=aack)
+        if live is not None:
+            # handed to the scripted listen(); the receiver run_receiver_task holds when it is served executes it
+            live.put(i, message)
+            return await finished[i]
         R.ev("cb_start", i)
         try:
             await receiver.callback(message, raise_err=False)
@@ -823,11 +865,50 @@ def _run_case(case):
         except BaseException as ex:  # noqa: B902 - an escaping exception is an observation
             R.ev("cb_done", i, type(ex).__name__ + ": " + str(ex)[:200])
 
+    async def stop(worker):
+        # A cancellation that reaches run_receiver_task in the very moment its listen() fails is lost: the task group
+        # of Receiver.listen raises the group of its children's errors instead of CancelledError, run_receiver_task
+        # takes that for one more failure of listen() and goes on with a new receiver.  So: cancel until it has ended.
+        for _ in range(50):
+            if worker.done():
+                break
+            worker.cancel()
+            await asyncio.wait({worker}, timeout=1)
+        if not worker.done():
+            raise RuntimeError("run_receiver_task does not end when it is cancelled")
+        await asyncio.gather(worker, return_exceptions=True)
+
     async def main(loop):
         if kind == "inmemory":
             for op in path.get("life") or []:
                 await {"startup": broker.startup, "shutdown": broker.shutdown}[op]()
-        await asyncio.gather(*[asyncio.create_task(runner(i, m)) for i, m in enumerate(case["msgs"])])
+        worker = None
+        if live is not None:
+            from taskiq.api import run_receiver_task
+            akw = dict(path["kwargs"])
+            if akw.get("ack_time") is not None:
+                akw["ack_time"] = ACK[akw["ack_time"]]
+            for i in range(len(case["msgs"])):
+                finished[i] = loop.create_future()
+            worker = asyncio.create_task(run_receiver_task(broker, receiver_cls=LiveReceiver, **akw))
+        runners = asyncio.gather(*[asyncio.create_task(runner(i, m)) for i, m in enumerate(case["msgs"])])
+        if worker is None:
+            await runners
+        else:
+            await asyncio.wait({worker, runners}, return_when=asyncio.FIRST_COMPLETED, timeout=900)
+            if not runners.done():
+                state = "is still listening"
+                if worker.done():
+                    state = "ended: %r" % (worker.exception() if not worker.cancelled() else "cancelled",)
+                for f in finished.values():
+                    if not f.done():
+                        f.set_result(None)
+                await asyncio.gather(runners, return_exceptions=True)
+                await stop(worker)
+                raise RuntimeError("deliveries %s handed to listen() were never executed to the end; run_receiver_task %s"
+                                   % ([i for i in finished if i not in executed_by or not finished[i].done()], state))
+            runners.result()
+            await stop(worker)
         if kind == "inmemory":
             await broker.wait_all()
 
@@ -849,4 +930,10 @@ def _run_case(case):
             pass
         asyncio.set_event_loop(None)
         loop.close()
-    return {"log": log, "trees": trees, "late": late}
+    out = {"log": log, "trees": trees, "late": late}
+    if live is not None:
+        n = len(case["msgs"])
+        out["live"] = {"listens": live.listens, "faults": live.faults, "receivers": built,
+                       "served_by_listen": [live.served.get(i) for i in range(n)],
+                       "executed_by_receiver": [executed_by.get(i) for i in range(n)]}
+    return out
